@@ -56,7 +56,11 @@ _EDIT_WEIGHTS = {
 
 
 def gen_case(rng: random.Random, tier: str) -> dict:
-    world = gen.gen_world(rng, pages=(1, 3), max_items=6, allow_rare=False, zid_mode=rng.choice(["mix", "all", "all"]))
+    feats0 = gen.pick_features(rng, allow_rare=False)
+    if rng.random() < 0.25:
+        # irregular spacing after the prefix and INSIDE the text: a stamp rewrite must keep it
+        feats0.append("double_space")
+    world = gen.gen_world(rng, feats=feats0, pages=(1, 3), max_items=6, zid_mode=rng.choice(["mix", "all", "all"]))
     feats = world["features"]
     steps: list[dict] = []
     for _ in range(rng.randint(3, 8)):
@@ -166,6 +170,16 @@ def expected_first_line(line: str, zid: str, today_short: str) -> Optional[str]:
     return head + today_short + " " + tail
 
 
+def _norm_head(line: str, zid: str) -> str:
+    """The statement pins WHERE the date goes (in front of the ZID), not how many spaces separate
+    prefix, date and ZID: runs of spaces before the ZID count as one; from the ZID on the line is
+    compared byte for byte."""
+    idx = line.find(zid)
+    if idx < 0:
+        return line
+    return re.sub(r" +", " ", line[:idx]) + line[idx:]
+
+
 def check_after(sim: core.Sim, before_files: dict, model: dict, rec: hist.Rec, step: int, scratch: str, tick_from: Optional[int] = None) -> Optional[dict]:
     """tick_from = the day the command started on when midnight struck during it:
     "today" is then either of two days.  The relaxation is narrow: a stamp may carry
@@ -196,7 +210,7 @@ def check_after(sim: core.Sim, before_files: dict, model: dict, rec: hist.Rec, s
             key = (rel, i + 1)
             if key in S:
                 wants = [expected_first_line(x, S[key]["cur"]["zid"], sh) for sh in shorts]
-                if y not in wants:
+                if _norm_head(y, S[key]["cur"]["zid"]) not in [_norm_head(w, S[key]["cur"]["zid"]) for w in wants if w is not None]:
                     return hist.viol("stamp-rewrite-wrong", _stamp_cause(S[key]), step=step, page=rel, line=i + 1, before=x, after=y, expected=wants)
                 hw = x[: x.find(S[key]["cur"]["zid"])].split(" ")
                 if len(hw) >= 2 and hw[-1] == "" and _SHORT.match(hw[-2]):
@@ -220,15 +234,16 @@ def check_after(sim: core.Sim, before_files: dict, model: dict, rec: hist.Rec, s
         rel, line = key
         x = before_files[rel].split("\n")[line - 1]
         y = after_files[rel].split("\n")[line - 1]
-        wants = {expected_first_line(x, info["cur"]["zid"], d.strftime("%y%m%d")): d for d in days}
+        wants = {_norm_head(expected_first_line(x, info["cur"]["zid"], d.strftime("%y%m%d")) or "", info["cur"]["zid"]): d for d in days}
+        y_raw, y = y, _norm_head(y, info["cur"]["zid"])
         if y not in wants:
-            if info["cur"]["modify"] in either_day and y == x:
+            if info["cur"]["modify"] in either_day and y_raw == x:
                 continue  # dated on the other side of the tick: legitimately not stamped
-            return hist.viol("stamp-missing-in-file", _stamp_cause(info), step=step, page=rel, line=line, before=x, after=y, expected=sorted(wants))
+            return hist.viol("stamp-missing-in-file", _stamp_cause(info), step=step, page=rel, line=line, before=x, after=y_raw, expected=sorted(wants))
         n = ci["notes"].get(key)
         if n is None or n["modify"] != wants[y].isoformat():
             cause = _stamp_cause(info) + ("|file-and-index-carry-different-days" if n is not None and n["modify"] in either_day else "")
-            return hist.viol("stamp-missing-in-index", cause, step=step, key=list(key), index=n, file_line=y)
+            return hist.viol("stamp-missing-in-index", cause, step=step, key=list(key), index=n, file_line=y_raw)
     pages_with_both = {k[0] for k in S} & {k[0] for k in new}
     rec.probe("new-and-edited-note-on-one-page", len(pages_with_both))
     # file and index agree after stamping (restricted to processed pages + global ZID sanity)
